@@ -3,7 +3,7 @@
 tier=${1:-quick}; seed=${2:-1}
 cd "$(dirname "$0")/.."
 for id in $(python3 -c "import json;print(' '.join(c['property_id'] for c in json.load(open('MANIFEST.json'))['checks']))"); do
-  VERIF_SEED=$seed ./vcheck $id $tier > /var/tmp/runall-$id.log 2>&1; rc=$?
-  echo "$id exit=$rc $(tail -1 /var/tmp/runall-$id.log | cut -c1-160)"
-  [ $rc = 0 ] || grep "^VIOLATION\|^INCONCL\|signature" /var/tmp/runall-$id.log | head -5 | cut -c1-300
+  VERIF_SEED=$seed ./vcheck $id $tier > ${TMPDIR:-/var/tmp}/runall-$tier-$id.log 2>&1; rc=$?
+  echo "$id exit=$rc $(tail -1 ${TMPDIR:-/var/tmp}/runall-$tier-$id.log | cut -c1-160)"
+  [ $rc = 0 ] || grep "^VIOLATION\|^INCONCL\|signature" ${TMPDIR:-/var/tmp}/runall-$tier-$id.log | head -5 | cut -c1-300
 done
